@@ -1,7 +1,7 @@
 #![allow(non_camel_case_types, non_snake_case, dead_code)]
 #[tarpc::service]
 pub trait Rej73 {
-    async fn r#fn(a0: i32);
-    async fn Ab(ctx: tarpc::context::Context) -> i32;
+    async fn r#fn(a0: i32) -> i32;
+    async fn b(ctx: tarpc::context::Context) -> i32;
 }
 fn main() {}
